@@ -19,6 +19,32 @@ def run(ctx):
     reg = meta.registry()
     events = [{"mtype": k, "meta": v} for k, v in reg.items()]
     traces = [{"id": "registry", "events": events}]
+    # class-level metadata must still equal the specification after the classes have been used (instances constructed with
+    # every unit, every fixture loaded, modules cloned): a second Register trace is taken afterwards
+    import io
+    import rv.api as api
+    import rv.modules
+    from .. import fmt
+    for t, st in spec.items():
+        cls = rv.modules.MODULE_CLASSES.get(t)
+        if cls is None or t == "Output":
+            continue
+        m = cls()
+        for c in st["ctls"]:
+            if c["kind"] == "dep":
+                for u, lo, hi in c["ranges"]:
+                    setattr(m, st["ctls"][c["dep"] - 1]["name"], u)
+                    setattr(m, c["name"], hi)
+                    m.get_raw(c["name"])
+                    cls.controllers[c["name"]].pattern_value(m, hi)
+        try:
+            m.clone()
+        except Exception:
+            pass
+    for name, data in fmt.fixtures():
+        fmt.load(data)
+    reg2 = meta.registry()
+    traces.append({"id": "registry-after-use", "events": [{"mtype": k, "meta": v} for k, v in reg2.items()]})
     nfields = 0
     for k, v in reg.items():
         for c in v["ctls"]:
